@@ -37,7 +37,6 @@ def _ok(o):
 
 class SF64(Sym):
     __slots__ = ()
-    __array_priority__ = 1000
 
     def _bin(self, o, f, rev=False):
         if not _ok(o):
@@ -139,7 +138,6 @@ class SF64(Sym):
 class SBV64(Sym):
     """Signed 64-bit integer (numpy int64)."""
     __slots__ = ()
-    __array_priority__ = 1000
 
     @staticmethod
     def _t(o):
